@@ -4,7 +4,7 @@
 (* positionally after the domain; and of typed variables over mixed-type     *)
 (* domains declared in different ways.  One Emit step per program.           *)
 EXTENDS EQLSyntax, Json
-CONSTANT Part      \* "fields" | "types" | "kwonly"
+CONSTANT Part      \* "fields" | "types" | "kwonly" | "subdom"
 
 FC(f, style, e) == [f |-> f, style |-> style, e |-> e]
 VarD(cls, decl, fields) == [cls |-> cls, decl |-> decl, fields |-> fields]
@@ -68,7 +68,16 @@ KProgs ==
                 flats |-> <<>>, bound |-> <<>>] >>
   ])])])])
 
-Progs == IF Part = "fields" THEN FieldProgs ELSE IF Part = "types" THEN TypeProgs ELSE KProgs
+\* ---- part "subdom": the supplied domain is itself a query: x = let(A, domain=an(entity(b, c(b)))) ----
+DomConds == << CmpC("ge", At(V(1), "n"), LitI(1)), PredC("p_pos", <<At(V(1), "n")>>, "fn"), PredC("p_pos", <<At(V(1), "m")>>, "class"),
+               OrC(CmpC("eq", At(V(1), "n"), LitI(0)), CmpC("ge", At(V(1), "m"), LitI(1)), "fn"), PredC("p_qge2", <<At(V(1), "n")>>, "fn") >>
+OuterConds == << TrueC, CmpC("eq", At(V(1), "m"), LitI(0)), CmpC("ge", At(V(1), "n"), LitI(2)), PredC("p_lt", <<At(V(1), "n"), At(V(1), "m")>>, "fn") >>
+SubDomProgs ==
+  Cat([d \in 1..Len(DomConds) |-> [c \in 1..Len(OuterConds) |->
+    [vars |-> << [cls |-> "A", decl |-> "subdom", fields |-> <<>>, domc |-> DomConds[d]] >>, desc |-> "entity", sel |-> <<V(1)>>,
+     cond |-> OuterConds[c], flats |-> <<>>, bound |-> <<>>] ]])
+
+Progs == IF Part = "fields" THEN FieldProgs ELSE IF Part = "types" THEN TypeProgs ELSE IF Part = "kwonly" THEN KProgs ELSE SubDomProgs
 VARIABLE k
 Init == k = 0
 Emit == k < Len(Progs) /\ k' = k + 1
